@@ -339,7 +339,7 @@ func (f *Frame) execLoopInv(sh *loopShape, spec *LoopSpec, st *State) []Outcome 
 	// 3. arbitrary iteration
 	h := st
 	for _, c := range mod {
-		in.havocCell(h, c, f)
+		f.havocLoopCell(h, c)
 	}
 	{
 		it := in.D.fresh(fmt.Sprintf("iter%d", sh.ord), SInt)
@@ -427,7 +427,7 @@ func (f *Frame) loopModset(sh *loopShape, st *State) []*Cell {
 	for round := 0; round < 6; round++ {
 		dry := st.clone()
 		for _, c := range order {
-			in.havocCell(dry, c, f)
+			f.havocLoopCell(dry, c)
 		}
 		base := map[*Cell]Val{}
 		for c, v := range dry.store {
@@ -461,7 +461,23 @@ func (f *Frame) loopModset(sh *loopShape, st *State) []*Cell {
 		grew := false
 		for _, fs := range finals {
 			for c, v := range fs.store {
-				if c.ID > limit || modset[c] {
+				if c.ID > limit {
+					continue
+				}
+				if modset[c] {
+					// already known as modified: only refine the set of modified struct fields
+					if ov, had := base[c]; had {
+						if osv, ok1 := ov.(StructV); ok1 {
+							if nsv, ok2 := v.(StructV); ok2 && len(osv.F) == len(nsv.F) && f.modFields[c] != nil {
+								for i := range osv.F {
+									if !sameVal(osv.F[i], nsv.F[i]) && !f.modFields[c][i] {
+										f.modFields[c][i] = true
+										grew = true
+									}
+								}
+							}
+						}
+					}
 					continue
 				}
 				ov, had := base[c]
@@ -472,6 +488,23 @@ func (f *Frame) loopModset(sh *loopShape, st *State) []*Cell {
 					modset[c] = true
 					order = append(order, c)
 					grew = true
+				}
+				// field-sensitive havoc for struct cells: remember which fields differ
+				if osv, ok1 := ov.(StructV); ok1 && had {
+					if nsv, ok2 := v.(StructV); ok2 && len(osv.F) == len(nsv.F) {
+						if f.modFields == nil {
+							f.modFields = map[*Cell]map[int]bool{}
+						}
+						if f.modFields[c] == nil {
+							f.modFields[c] = map[int]bool{}
+						}
+						for i := range osv.F {
+							if !sameVal(osv.F[i], nsv.F[i]) && !f.modFields[c][i] {
+								f.modFields[c][i] = true
+								grew = true
+							}
+						}
+					}
 				}
 			}
 		}
@@ -512,4 +545,23 @@ func (f *Frame) specEnvAt(st *State, pos token.Pos) *SpecEnv {
 		}
 	}
 	return env
+}
+
+// havocLoopCell havocs a cell of a loop's modset; for a struct cell whose modified fields are known
+// only those fields get fresh values (the others are provably unchanged by the body).
+func (f *Frame) havocLoopCell(st *State, c *Cell) {
+	in := f.in
+	if fields := f.modFields[c]; len(fields) > 0 {
+		if sv, ok := in.load(st, c, f).(StructV); ok {
+			nf := append([]Val(nil), sv.F...)
+			for i := range nf {
+				if fields[i] {
+					nf[i] = in.freshVal(sv.Typ.Field(i).Name(), sv.Typ.Field(i).Type(), f)
+				}
+			}
+			st.store[c] = StructV{Typ: sv.Typ, F: nf}
+			return
+		}
+	}
+	in.havocCell(st, c, f)
 }
